@@ -264,7 +264,7 @@ func C12(r *vf.Run) {
 				if g.Intn(3) == 0 {
 					s = genEmuState(g)
 				}
-				s.PC = uint16(0x1000 + g.Intn(0x8000))
+				s.PC = uint16(0x1000 + g.Intn(0x6000)) // stays clear of the reset target at $00:9000 and the vector
 				s.S = 0x01FF
 				img := mem.New(g.U64())
 				depth := g.Intn(12)
